@@ -19,7 +19,7 @@ DONE={
         "held on the executions observed; known finding: DevVersionReq cannot be followed by another command (pinned by the repository's own test)",
         "trusted: bit-width table of TS003-TS006 in mon/c18.go; crypto/aes"),
  "C05":("runtime monitoring: recorded sender/receiver call histories judged by a content-equality oracle and a tamper oracle (independent spec MIC over the received bytes with the receiver's parameters), incl. a receiver re-using its PHYPayload value",
-        "held on the executions observed (thorough: every bit of every generated frame is flipped); known finding: MHDR RFU bits",
+        "held on the executions observed (thorough: every bit of every generated frame is flipped)",
         "trusted: crypto/aes, harness CMAC/keystream; key usage per LoRaWAN 1.1"),
  "C10":("runtime monitoring + Go race detector: aliasing / input-unchanged / guard-byte / stale-state / kept-copy / independent-values (reflection scribble) memory-effect monitors on every decoder type, band-instance isolation histories, and a -race workload (shared input buffers, template copies, private crypto judged by models) whose registry operations are recorded and checked for linearizability with porcupine",
         "held on the executions observed: guard sweep complete for lengths 0..64 x alignments 0..15; concurrent part reports the histories, overlapping operation pairs and race-detector runs actually observed (not all interleavings)",
